@@ -266,6 +266,94 @@ func rootNullStream(n int) {
 	}
 }
 
+// deepStream: documents nested right up to the decoder's limit, and patches that copy them into
+// themselves (so that the duplicated value or the result nests deeper than the limit) and then
+// look inside the copies
+func deepStream(n int) {
+	for i := 0; i < n; i++ {
+		d := int(pick64(9998, 9999, 10000, 10000))
+		var doc string
+		arrayRoot := chance(0.5)
+		if arrayRoot {
+			doc = strings.Repeat("[", d) + strings.Repeat("]", d)
+		} else if chance(0.5) {
+			doc = `{"a":` + strings.Repeat("[", d-1) + strings.Repeat("]", d-1) + `,"k":[1]}`
+		} else {
+			doc = strings.Repeat(`{"a":`, d-1) + "{}" + strings.Repeat("}", d-1)
+		}
+		var ops []string
+		// duplicate the document (or its big member) into itself one to three times ...
+		var last []string
+		nc := 1 + rng.Intn(3)
+		whole := chance(0.6) // the whole document, twice: the second copy holds the first
+		if whole && nc < 2 {
+			nc = 2
+		}
+		for j := 0; j < nc; j++ {
+			if arrayRoot {
+				src := pick("", "", "/0", "/0/0")
+				if whole {
+					src = ""
+				}
+				ops = append(ops, fmt.Sprintf(`{"op":"copy","from":%s,"path":"/-"}`, jsonStr(src)))
+				last = append(last, fmt.Sprintf("/%d", j+1))
+			} else {
+				k := pick("b", "c", "d")
+				src := pick("", "", "/a", "/a/a")
+				if whole {
+					src = ""
+					k = []string{"b", "c", "d"}[j%3]
+				}
+				ops = append(ops, fmt.Sprintf(`{"op":"copy","from":%s,"path":%s}`, jsonStr(src), jsonStr("/"+k)))
+				last = append(last, "/"+k)
+			}
+		}
+		// ... then look inside the copies
+		for j := 0; j < 1+rng.Intn(2); j++ {
+			pth := last[rng.Intn(len(last))] + pick("", "", "/0", "/a", "/1", "/b")
+			if whole && j == 0 {
+				pth = last[len(last)-1]
+			}
+			switch rng.Intn(5) {
+			case 0, 1:
+				ops = append(ops, fmt.Sprintf(`{"op":"test","path":%s,"value":1}`, jsonStr(pth)))
+			case 2:
+				ops = append(ops, fmt.Sprintf(`{"op":"add","path":%s,"value":1}`, jsonStr(pth+pick("/-", "/z"))))
+			case 3:
+				ops = append(ops, fmt.Sprintf(`{"op":"remove","path":%s}`, jsonStr(pth+pick("/0", "/a"))))
+			default:
+				ops = append(ops, fmt.Sprintf(`{"op":"move","from":%s,"path":%s}`, jsonStr(pth), jsonStr(pick("/zz", "/-"))))
+			}
+		}
+		a := aopts{neg: chance(0.7), esc: chance(0.5), limit: pick64(0, 0, 1000000)}
+		emitApply("apply-deep", []byte(doc), ops, joinOps(ops), a, false)
+	}
+}
+
+// emptyTokenStream: short sequences of all six operations over pointers with empty reference
+// tokens ("/" is the member named "", which the library treats specially) on tiny documents
+func emptyTokenStream(n int) {
+	paths := []string{"", "/", "/", "/", "//", "//x", "//x", "/a", "/a/", "/bar", "/-", "/0", "/0/"}
+	docs := []string{`{}`, `{"a":[1]}`, `[1]`, `{"":1}`, `{"":1,"a":2}`, `{"":{"":[]},"a":{}}`, `{"":[1]}`, `[{"":null}]`}
+	vals := []string{"1", "null", "{}", "[]", `{"":1}`, `[[]]`}
+	for i := 0; i < n; i++ {
+		var ops []string
+		for j := 0; j < 2+rng.Intn(4); j++ {
+			k := pick("copy", "copy", "move", "move", "add", "test", "remove", "replace")
+			switch k {
+			case "copy", "move":
+				ops = append(ops, fmt.Sprintf(`{"op":%s,"from":%s,"path":%s}`, jsonStr(k), jsonStr(pick(paths...)), jsonStr(pick(paths...))))
+			case "remove":
+				ops = append(ops, fmt.Sprintf(`{"op":"remove","path":%s}`, jsonStr(pick(paths...))))
+			default:
+				ops = append(ops, fmt.Sprintf(`{"op":%s,"path":%s,"value":%s}`, jsonStr(k), jsonStr(pick(paths...)), pick(vals...)))
+			}
+		}
+		a := aopts{neg: chance(0.5), allow: chance(0.3), ensure: chance(0.3), esc: chance(0.5)}
+		emitApply("apply-empty", []byte(pick(docs...)), ops, joinOps(ops), a, false)
+	}
+}
+
 func pick64(xs ...int64) int64 { return xs[rng.Intn(len(xs))] }
 
 func emitApply(stream string, doc []byte, ops []string, patch []byte, a aopts, extra bool) {
@@ -506,6 +594,9 @@ func mergeStream(n int) {
 			patch = []byte(ws(g) + genMergePatch(dv, g, 3) + ws(g))
 		} else {
 			patch = []byte(genDoc(g))
+		}
+		if chance(0.08) {
+			doc, patch = sharedSubtreePair(g)
 		}
 		if chance(0.03) {
 			patch = mutate(patch)
@@ -878,7 +969,7 @@ func normStd(b []byte) string {
 	return s
 }
 
-var tagPool = []string{"", `json:"a"`, `json:"b,omitempty"`, `json:"-"`, `json:"c,string"`, `json:",omitempty"`, `json:"d,omitempty,string"`, `json:"e e"`, `json:"-,"`}
+var tagPool = []string{"", "", `json:"kind"`, `json:"status,omitempty"`, `json:"a"`, `json:"b,omitempty"`, `json:"-"`, `json:"c,string"`, `json:",omitempty"`, `json:"d,omitempty,string"`, `json:"e e"`, `json:"-,"`}
 
 func genFieldType(depth int) reflect.Type {
 	switch rng.Intn(11) {
@@ -912,7 +1003,11 @@ func genStructType(depth int) reflect.Type {
 	n := 1 + rng.Intn(4)
 	var fs []reflect.StructField
 	for i := 0; i < n; i++ {
-		fs = append(fs, reflect.StructField{Name: fmt.Sprintf("F%d", i), Type: genFieldType(depth), Tag: reflect.StructTag(tagPool[rng.Intn(len(tagPool))])})
+		name := fmt.Sprintf("F%d", i)
+		if chance(0.3) {
+			name = pick("Kind", "Status", "Ks", "Strasse")[:] + fmt.Sprint(i)
+		}
+		fs = append(fs, reflect.StructField{Name: name, Type: genFieldType(depth), Tag: reflect.StructTag(tagPool[rng.Intn(len(tagPool))])})
 	}
 	return reflect.StructOf(fs)
 }
@@ -1047,9 +1142,74 @@ func stdcmpStream(n int) {
 			b1, _ = ijson.Marshal(w1.Interface())
 			b2, _ = stdjson.Marshal(w2.Interface())
 			same = st2 == "ok" && (d1 == nil) == (d2 == nil) && sameJSON(b1, b2)
+			// and with the member names re-spelled: other case, and characters that are equal only under
+			// Unicode simple folding (k/K/U+212A, s/S/U+017F): field matching must agree with encoding/json
+			if same {
+				o3 := refold(o2)
+				x1, x2 := reflect.New(t), reflect.New(t)
+				st3 := guarded(func() { d1 = ijson.Unmarshal(o3, x1.Interface()) })
+				d2 = stdjson.Unmarshal(o3, x2.Interface())
+				c1, _ := ijson.Marshal(x1.Interface())
+				c2, _ := stdjson.Marshal(x2.Interface())
+				if !(st3 == "ok" && (d1 == nil) == (d2 == nil) && sameJSON(c1, c2)) {
+					same = false
+					o2, b1, b2 = o3, c1, c2
+				}
+			}
 		}
 		emit("stdcmp", kv{"what", "struct"}, kv{"in", hx([]byte(t.String()))}, kv{"status", st}, kv{"same", b2s(same)}, kv{"ours", hx(o1)}, kv{"std", hx(o2)}, kv{"back1", hx(b1)}, kv{"back2", hx(b2)})
 	}
+}
+
+// refold re-spells the member names of a JSON text (bytes between a quote and the following ":):
+// swaps ASCII case and replaces k, s by their non-ASCII fold partners
+func refold(b []byte) []byte {
+	var out []byte
+	i := 0
+	for i < len(b) {
+		if b[i] != '"' {
+			out = append(out, b[i])
+			i++
+			continue
+		}
+		j := i + 1
+		for j < len(b) && b[j] != '"' {
+			if b[j] == '\\' {
+				j++
+			}
+			j++
+		}
+		if j >= len(b) {
+			out = append(out, b[i:]...)
+			break
+		}
+		str := b[i : j+1]
+		if j+1 < len(b) && b[j+1] == ':' {
+			mode := rng.Intn(3)
+			var r []byte
+			for _, c := range string(str[1 : len(str)-1]) {
+				switch {
+				case mode == 0 && (c == 'k' || c == 'K'):
+					r = append(r, "\u212a"...)
+				case mode == 0 && (c == 's' || c == 'S'):
+					r = append(r, "\u017f"...)
+				case c >= 'a' && c <= 'z' && mode != 2:
+					r = append(r, byte(c-32))
+				case c >= 'A' && c <= 'Z':
+					r = append(r, byte(c+32))
+				default:
+					r = append(r, string(c)...)
+				}
+			}
+			out = append(out, '"')
+			out = append(out, r...)
+			out = append(out, '"')
+		} else {
+			out = append(out, str...)
+		}
+		i = j + 1
+	}
+	return out
 }
 
 // sameJSON: equal as JSON values, numbers by float64 (the two libraries spell some floats differently)
@@ -1180,7 +1340,7 @@ func mkPool() *pool {
 		p.docs = append(p.docs, d)
 	}
 	for i := 0; i < 4; i++ {
-		g := genOpts{depth: 2}
+		g := genOpts{depth: 2, ws: chance(0.6)} // pretty-printed patch files have white space inside values
 		cur, _ := decodeStd(p.docs[rng.Intn(len(p.docs))])
 		pg := &patchGen{g: g, pTestOK: 0.7, kinds: allKinds}
 		var ops []string
@@ -1482,6 +1642,10 @@ func main() {
 		applyStream(applyCfg{name: *stream, pTestOK: 0.75, kinds: allKinds, pRetry: 0.8}, *n)
 	case "stdcmp":
 		stdcmpStream(*n)
+	case "apply-deep":
+		deepStream(*n)
+	case "apply-empty":
+		emptyTokenStream(*n)
 	case "apply-rootnull":
 		rootNullStream(*n)
 	case "apply-any":
